@@ -450,6 +450,39 @@ theorem obs_safe_needed :
     (ModuleTree.apply {} 10 (eraseSow readsOwnSow) .tt Vars.empty [] 0).result.toOption.map (·.1) = some 0 := by
   decide +kernel
 
+/-! ## nested applies: `capture_intermediates` is dynamically scoped -/
+
+/-- **A nested apply is isolated from the enclosing capture setting.**  A module body that runs
+`Sub().apply(V, e, mutable=m, capture_intermediates=False)` gets the same output and the same returned
+state — hence the same locals, and the enclosing store untouched — whether the enclosing
+`apply`/`init` was started with `capture_intermediates` on or off: module-level `apply` pushes its own
+setting (also `False`) for the duration of the call.  Together with `observe_noninterference`, whose
+simulation covers `nested`, turning capture on in the outer call cannot change the outer output even when
+that output includes the state the inner call returned. -/
+theorem nested_apply_capture_isolated (cfg : Cfg) (b : Bool) (fuel : Nat) (body : SProg) (m : LFilter) (V : Vars)
+    (a : Expr) (π : Path) (x : Int) (l : Local) (s : Store) :
+    eval { cfg with capture := b } (fuel + 1) (.nested body m V a) π x l s
+      = eval cfg (fuel + 1) (.nested body m V a) π x l s := by
+  simp only [eval, nestedCfg]
+
+/-- the nested call leaves the enclosing scope's store alone, whatever happens inside it -/
+theorem nested_apply_store_untouched (cfg : Cfg) (fuel : Nat) (body : SProg) (m : LFilter) (V : Vars) (a : Expr)
+    (π : Path) (x : Int) (l : Local) (s : Store) :
+    (eval cfg (fuel + 1) (.nested body m V a) π x l s).2 = s := by
+  simp only [eval]
+  split
+  · rfl
+  · split
+    · rfl
+    · split <;> rfl
+
+/-- why the push of `False` matters: evaluated under an inherited `capture := true`, the same inner apply
+with `mutable=True` returns an extra `'intermediates'` collection -/
+theorem inherited_capture_would_leak :
+    ((ModuleTree.apply { capture := false } 10 (.ret .arg) .tt Vars.empty ["params"] 3).result.toOption.map (·.2.cols)) = some [] ∧
+    ((ModuleTree.apply { capture := true } 10 (.ret .arg) .tt Vars.empty ["params"] 3).result.toOption.map (·.2.cols))
+      = some ["intermediates"] := by decide +kernel
+
 /-! ## a program with a dict-valued write over a subtree (used below and in the examples) -/
 
 /-- a dict-valued write over a submodule's subtree, two levels above a counter that is then updated
@@ -604,7 +637,7 @@ every sufficient fuel. -/
 theorem more_fuel_same_result (cfg : Cfg) (fuel : Nat) (p : SProg) (π : Path) (x : Int) (l : Local) (s : Store)
     (h : (eval cfg fuel p π x l s).1 ≠ .error .fuel) :
     eval cfg (fuel + 1) p π x l s = eval cfg fuel p π x l s :=
-  eval_fuel_mono cfg fuel p π x l s h
+  eval_fuel_mono fuel cfg p π x l s h
 
 /-! ## non-vacuity: a concrete program with params, a counter, running statistics, sow and children -/
 
